@@ -402,7 +402,7 @@ Print Assumptions C10_every_call_answered_once_with_one_way.
 (* WHICH replies (review 2: outcome_ok / `replies` only count messages per request id; a model that answered a raising method
    with an `answer`, whose checkResults always accepted, or whose _doCall failed only when the log could not render, passed every
    universal theorem above).  For EVERY history (one-way calls anywhere, ids need not even be distinct) whose calls are inside
-   the exact guard: what is handed to Broker.send is, call by call in arrival order, exactly reply_of -- an `error` carrying
+   the exact guard: what is handed to Broker.send is, call by call in the order of the history (the order in which the callee concludes the calls), exactly reply_of -- an `error` carrying
    FailureSlicer's state of the call's exception (the_state: C10_failure_fits applies to it) exactly when the arguments did not become
    ready, the method raised, or the callee's schema rejects the result (must_fail), or the call was rejected while being received and
    not by the caller's ABORT; otherwise the `answer` (seen aborted by the caller when an AnswerSlicer raised Violation); nothing for
